@@ -38,4 +38,38 @@ theorem probe_bounds :
 theorem fuel_monotone (X : Ctx) (fuel extra : Nat) (s : Stmt) (σ : State) (h : exec X fuel s σ ≠ .oof) :
     exec X (fuel + extra) s σ = exec X fuel s σ := exec_mono X fuel extra s σ h
 
+/-- the intrinsics of the round-2 probes -/
+def X2 : Ctx :=
+  { ext := fun f a => match f, a with
+      | "probe.note", [.int x] => some [.int (x + 1)]
+      | "probe.done", [] => some []
+      | _, _ => none,
+    funs := funs }
+
+/-- `defer r.done()` runs after the results have been evaluated — `note(3)`, `note(5)`, then `done` — on both return paths;
+    recorded calls in argument position keep their source order -/
+theorem probe_defer_runs_last :
+    run X2 2 "probeDefer" [.int 3, .int 5] [("n", .int 0), ("ev", .list [])] =
+      .done [.int 6] [("n", .int 1), ("ev", .list [
+        .list [.bytes [112, 114, 111, 98, 101, 46, 110, 111, 116, 101], .int 3],
+        .list [.bytes [112, 114, 111, 98, 101, 46, 110, 111, 116, 101], .int 5],
+        .list [.bytes [112, 114, 111, 98, 101, 46, 100, 111, 110, 101]]])] ∧
+    run X2 2 "probeDefer" [.int (-4), .int 5] [("n", .int 0), ("ev", .list [])] =
+      .done [.int (-3)] [("n", .int 1), ("ev", .list [
+        .list [.bytes [112, 114, 111, 98, 101, 46, 110, 111, 116, 101], .int (-4)],
+        .list [.bytes [112, 114, 111, 98, 101, 46, 100, 111, 110, 101]]])] := by
+  refine ⟨?_, ?_⟩ <;> rfl
+
+/-- nil-able values: `nil` is the empty list, interface equality is value equality -/
+theorem probe_nilable :
+    run X2 2 "probeNilable" []
+        [("n", .int 0), ("link", .list [.int 1]), ("other", .list [.int 1]), ("sub", .list []), ("ev", .list [])] =
+      .done [.bool false, .bool true, .bool false, .int 0]
+        [("n", .int 0), ("link", .list [.int 1]), ("other", .list [.int 1]), ("sub", .list []), ("ev", .list [])] ∧
+    run X2 2 "probeNilable" []
+        [("n", .int 0), ("link", .list []), ("other", .list [.int 2]), ("sub", .list [.int 7, .bytes [1]]), ("ev", .list [])] =
+      .done [.bool false, .bool true, .bool true, .int 7]
+        [("n", .int 0), ("link", .list []), ("other", .list [.int 2]), ("sub", .list [.int 7, .bytes [1]]), ("ev", .list [])] := by
+  refine ⟨?_, ?_⟩ <;> rfl
+
 end ZapVerif.CTR
